@@ -17,6 +17,16 @@ use crate::{
     types::{PkeskVersion, SkeskVersion, Tag},
 };
 
+/// A packet parser must consume the whole body of its packet: whatever is left over does not
+/// belong to the packet, and the next packet starts only behind it.
+fn ensure_consumed<R: DebugBufRead>(packet: &mut PacketBodyReader<R>) -> Result<()> {
+    let left = packet.drain()?;
+    if left > 0 {
+        return Err(crate::errors::Error::PacketTooLarge { size: left });
+    }
+    Ok(())
+}
+
 struct MessageParser<'a> {
     messages: Vec<SignaturePacket>,
     current: MessageParserState<'a>,
@@ -99,6 +109,7 @@ impl<'a> MessageParser<'a> {
                                 packet.packet_header(),
                                 &mut packet,
                             )?;
+                            ensure_consumed(&mut packet)?;
                             self.messages.push(SignaturePacket::Signature { signature });
                             // Keep original is_nested - the outer Signed message inherits it.
                             self.current = MessageParserState::Start {
@@ -116,6 +127,7 @@ impl<'a> MessageParser<'a> {
                                 packet.packet_header(),
                                 &mut packet,
                             )?;
+                            ensure_consumed(&mut packet)?;
                             self.messages.push(SignaturePacket::Ops { signature });
                             // Keep original is_nested - the outer Signed message inherits it.
                             self.current = MessageParserState::Start {
@@ -206,6 +218,7 @@ impl<'a> MessageParser<'a> {
 
         if tag == Tag::SymKeyEncryptedSessionKey || tag == Tag::PublicKeyEncryptedSessionKey {
             let esk = Esk::try_from_reader(&mut packet)?;
+            ensure_consumed(&mut packet)?;
             esks.push(esk);
         } else {
             // this message consists of just a bare encryption container
@@ -230,6 +243,7 @@ impl<'a> MessageParser<'a> {
             match tag {
                 Tag::SymKeyEncryptedSessionKey | Tag::PublicKeyEncryptedSessionKey => {
                     let esk = Esk::try_from_reader(&mut packet)?;
+                    ensure_consumed(&mut packet)?;
                     esks.push(esk);
                     packets = crate::packet::PacketParser::new(packet.into_inner());
                 }
